@@ -496,6 +496,252 @@ def run_dirs_family(res, exe, spec_exe, rng, tier, stats, machinery):
             viol += 1
     return viol
 
+# ------------------------------------------------------------------------------------------ several routings in one process, different parameters
+# Per-process state (function-local statics, caches keyed on a Router that may be re-parameterised): ONE harness process (`c05_bends seq`) handles a
+# sequence of steps, each with its own segmentPenalty: 'S' = a new Router (the previous one deleted, or kept alive), 'T' = the same Router
+# re-parameterised with setRoutingParameter(segmentPenalty, v) followed by processTransaction() alone / makePathInvalid() on every connector / a
+# moveShape.  Penalties go up and down within the process (e.g. 300, 2, 300, 2, 0.5, 50).  Every step's raw routes are judged by the same verified
+# route checker and grid oracle (grid_oracle_optimal) with the penalty IN FORCE for that step.  Seeded change C05-6 (cost() reads segmentPenalty
+# into a function-local static) is invisible to a process that only ever uses one penalty - which is what the other families do (one process per
+# penalty).  libavoid HEAD has no mutable statics in makepath.cpp / router.cpp / orthogonal.cpp (only constants); process-wide reproducibility under
+# address / heap perturbation is C20's subject and not repeated here.
+SEQ_HI = [50, 300, 400]
+SEQ_LO = [0.5, 1, 2]
+
+
+def tradeoff_scene(rng):
+    """length-versus-bends trade-off (shape of the seeded C05-6 demo, randomised + a random symmetry): a wide bar between source and target; the short way
+    round the bar's near end needs 3 bends because a post blocks the source's direct way out, the long way round the far end needs 2"""
+    W, h = rng.range(40, 100), rng.range(4, 20)
+    bar = (0, 0, W, h)
+    sx, sy = rng.range(W // 2, W - 5), h + rng.range(20, 60)
+    px0 = sx + rng.range(2, 6)
+    py0 = max(h + 2, sy - rng.range(8, 25))
+    post = (px0, py0, px0 + rng.range(5, 20), sy + rng.range(8, 40))
+    dst = (rng.range(W - 15, W + 4), -rng.range(5, 40))
+    boxes, src = [bar, post], (sx, sy)
+    if rng.chance(1, 3):
+        # a third, harmless rectangle somewhere away from the endpoints
+        for _ in range(10):
+            x, y, w, hh = rng.range(-40, W + 40), rng.range(-60, sy + 60), rng.range(3, 15), rng.range(3, 15)
+            b = (x, y, x + w, y + hh)
+            if all(rects_sep(b, o, 2) for o in boxes) and not any(b[0] <= q[0] <= b[2] and b[1] <= q[1] <= b[3] for q in (src, dst)):
+                boxes.append(b)
+                break
+    t = rng.below(8)
+    def tp(q):
+        x, y = q
+        if t & 1: x = -x
+        if t & 2: y = -y
+        if t & 4: x, y = y, x
+        return (x, y)
+    def tb(b):
+        (a, c), (d, e) = tp((b[0], b[1])), tp((b[2], b[3]))
+        return (min(a, d), min(c, e), max(a, d), max(c, e))
+    boxes = [tb(b) for b in boxes]
+    src, dst = tp(src), tp(dst)
+    if rng.chance(1, 2):
+        src, dst = dst, src
+    return boxes, [(src, dst)]
+
+
+def gen_param_sequence(rng):
+    """one process: 2-4 scenes, each in a new Router and then re-parameterised 0-3 times; the penalty alternates between a large and a small value
+    (random which comes first), now and then a middle one.  Returns steps: dicts {op 'S'|'T', pen, keep, mode, move, boxes, conns} where boxes / conns
+    are the scene IN FORCE after the step."""
+    steps = []
+    hi, lo = rng.choice(SEQ_HI), rng.choice(SEQ_LO)
+    phase = rng.below(2)
+    def next_pen():
+        nonlocal phase
+        phase ^= 1
+        if rng.chance(1, 8):
+            return 10
+        if rng.chance(1, 6):
+            return rng.choice(SEQ_HI) if phase else rng.choice(SEQ_LO)
+        return hi if phase else lo
+    for si in range(rng.range(2, 4)):
+        k = rng.below(4)
+        boxes, conns = (tradeoff_scene(rng) if k < 2 else gen_scene(rng, 14, 9, 7) if k == 2 else corridor_scene(rng))
+        if not conns:
+            boxes, conns = tradeoff_scene(rng)
+        boxes = list(boxes)
+        steps.append({'op': 'S', 'pen': next_pen(), 'keep': int(rng.chance(1, 3)), 'boxes': list(boxes), 'conns': list(conns)})
+        for _ in range(rng.below(4)):
+            mode, move = rng.below(3), None
+            if mode == 2:
+                kk = rng.below(len(boxes))
+                b = boxes[kk]
+                for _t in range(8):
+                    dx, dy = rng.range(-4, 4), rng.range(-4, 4)
+                    nb = (b[0] + dx, b[1] + dy, b[2] + dx, b[3] + dy)
+                    if (dx or dy) and all(rects_sep(nb, o, 1) for j, o in enumerate(boxes) if j != kk) and \
+                       not any(nb[0] <= q[0] <= nb[2] and nb[1] <= q[1] <= nb[3] for c in conns for q in c[:2]):
+                        move = (kk,) + nb
+                        break
+                if move is None:
+                    mode = 1
+                else:
+                    boxes = boxes[:kk] + [move[1:]] + boxes[kk + 1:]
+            steps.append({'op': 'T', 'pen': next_pen(), 'mode': mode, 'move': move, 'boxes': list(boxes), 'conns': list(conns)})
+    return steps
+
+
+def seq_text(steps):
+    """stdin of `c05_bends seq` for a list of steps"""
+    out = []
+    for st in steps:
+        if st['op'] == 'S':
+            out.append('S %s %d %d %d' % (repr(float(st['pen'])), st.get('keep', 0), len(st['boxes']), len(st['conns'])))
+            out += ['%d %d %d %d' % tuple(b) for b in st['boxes']]
+            out += ['%d %d %d %d %d %d' % (tuple(c[0]) + tuple(c[1]) + ((c[2], c[3]) if len(c) > 2 else (15, 15))) for c in st['conns']]
+        else:
+            out.append('T %s %d' % (repr(float(st['pen'])), st['mode']) + (' %d %d %d %d %d' % tuple(st['move']) if st['mode'] == 2 else ''))
+    return '\n'.join(out) + '\n'
+
+
+def as_fresh(st):
+    """the scene in force after step st, as a first routing in a new Router"""
+    return {'op': 'S', 'pen': st['pen'], 'keep': 0, 'boxes': st['boxes'], 'conns': st['conns']}
+
+
+def run_sequences(exe, spec_exe, seqs):
+    """one harness process per sequence; one oracle process for all records.  Returns (records, router seconds, oracle seconds); each record has
+    'seq' (index), 'step' (index), 'conn' (index) besides the fields of run_routes."""
+    recs, dtc = [], 0.0
+    for qi, steps in enumerate(seqs):
+        rc, out, err, dt = C.sh([exe, 'seq'], input=seq_text(steps), timeout=300)
+        dtc += dt
+        lines, k = out.split('\n'), 0
+        for si, st in enumerate(steps):
+            for ci, c in enumerate(st['conns']):
+                t = lines[k].split() if k < len(lines) else []
+                k += 1
+                sv, dv = (c[2], c[3]) if len(c) > 2 else (15, 15)
+                r = {'boxes': [tuple(b) for b in st['boxes']], 'src': tuple(c[0]), 'dst': tuple(c[1]), 'penalty': st['pen'], 'raw': ' '.join(t),
+                     'src_dirs': sv, 'dst_dirs': dv, 'seq': qi, 'step': si, 'conn': ci}
+                if not t or t[0] != 'R':
+                    r['error'] = 'router raised an exception / no route printed (rc=%s %s)' % (rc, err[-300:])
+                else:
+                    n = int(t[1])
+                    toks = t[2:2 + 2 * n]
+                    r['route_text'] = [(toks[2 * i], toks[2 * i + 1]) for i in range(n)]
+                    r['route'] = [(parse_num(toks[2 * i]), parse_num(toks[2 * i + 1])) for i in range(n)]
+                recs.append(r)
+            k += 1
+    todo = [r for r in recs if 'route' in r and all(q[0] is not None and q[1] is not None for q in r['route'])]
+    oin = []
+    for r in todo:
+        scale = 1 if r['penalty'] == int(r['penalty']) else 2
+        r['scale'] = scale
+        f = [int(r['penalty'] * scale), len(r['boxes'])]
+        for b in r['boxes']:
+            f += [v * scale for v in b]
+        f += [v * scale for v in list(r['src']) + list(r['dst'])] + [start_mask(r['src_dirs']), arrival_mask(r['dst_dirs']), len(r['route'])]
+        for q in r['route']:
+            f += [v * scale for v in q]
+        oin.append(' '.join(str(v) for v in f))
+    rc2, oout, oerr, dto = C.sh([spec_exe, 'routes'], input='\n'.join(oin) + '\n', timeout=1800)
+    olines = [l for l in oout.split('\n') if l]
+    for r, l in zip(todo, olines):
+        head, _, path = l.partition('|')
+        h, scale = head.split(), r['scale']
+        unscale = (lambda v: v) if scale == 1 else (lambda v: v / float(scale) if v >= 0 else v)
+        r['oracle_status'], r['oracle_cost'], r['impl_status'], r['impl_cost'] = h[0], unscale(int(h[1])), h[2], unscale(int(h[3]))
+        pp = path.split()
+        r['oracle_path'] = [(int(pp[2 * i]) // scale, int(pp[2 * i + 1]) // scale) for i in range(len(pp) // 2)]
+    for r in todo[len(olines):]:
+        r['error'] = 'oracle driver produced no line (rc=%s %s)' % (rc2, oerr[-300:])
+    return recs, dtc, dto
+
+
+def corpus_sequences():
+    """corpus/c05_seq.json: [{name, steps: [{op, pen, keep | mode, move, boxes, conns}]}] - minimised regressions, run first (each in its own process)"""
+    path = os.path.join(C.VERIF, 'corpus', 'c05_seq.json')
+    out = []
+    if os.path.exists(path):
+        for e in json.load(open(path)):
+            steps = []
+            for st in e['steps']:
+                st = dict(st)
+                st['boxes'] = [tuple(b) for b in st['boxes']]
+                st['conns'] = [tuple(tuple(q) if isinstance(q, list) else q for q in c) for c in st['conns']]
+                steps.append(st)
+            out.append((e['name'], steps))
+    return out
+
+
+def minimise_sequence(exe, spec_exe, steps, si, ci):
+    """smallest sub-sequence in which route ci of (the scene of) step si still fails: the step alone as a first routing (then the failure does not depend on
+    earlier steps), else an earlier step + this one, each as a new Router, else the prefix up to si.  Returns (steps, index of the failing step, note)"""
+    def fails(cand, idx):
+        recs, _, _ = run_sequences(exe, spec_exe, [cand])
+        return any(r['step'] == idx and r['conn'] == ci and judge(r) is not None and not judge(r)[1] for r in recs)
+    alone = [as_fresh(steps[si])]
+    if fails(alone, 0):
+        return alone, 0, 'fails as the first and only routing of a process: independent of earlier steps'
+    for j in range(si):
+        cand = [as_fresh(steps[j]), as_fresh(steps[si])]
+        if fails(cand, 1):
+            return cand, 1, ('passes as the first routing of a process, fails after one earlier routing with segmentPenalty %s in ANOTHER Router of the same '
+                             'process: state that outlives the Router' % repr(steps[j]['pen']))
+    return steps[:si + 1], si, 'passes as the first routing of a process; needs this prefix of the sequence'
+
+
+def run_seq_family(res, exe, spec_exe, rng, tier, stats, machinery):
+    corpus = corpus_sequences()
+    nseq = 80 if tier == 'quick' else 600
+    seqs = [s for _, s in corpus] + [gen_param_sequence(rng) for _ in range(nseq)]
+    names = [n for n, _ in corpus]
+    recs, dtc, dto = run_sequences(exe, spec_exe, seqs)
+    stats.update({'corpus_sequences': len(corpus), 'sequences': len(seqs), 'steps': sum(len(s) for s in seqs), 'routes': len(recs),
+                  'router_s': round(dtc, 2), 'oracle_s': round(dto, 2)})
+    viol, reported = 0, set()
+    prev_cost = {}
+    for r in recs:
+        st = seqs[r['seq']][r['step']]
+        stats['by_op'][st['op'] + (str(st.get('mode')) if st['op'] == 'T' else '')] = stats['by_op'].get(st['op'] + (str(st.get('mode')) if st['op'] == 'T' else ''), 0) + 1
+        stats['penalties'][str(r['penalty'])] = stats['penalties'].get(str(r['penalty']), 0) + 1
+        j = judge(r)
+        if j is None:
+            stats['agree'] += 1
+            if route_bends(r['route']) >= 2:
+                stats['with_detour'] += 1
+            # did the penalty in force change which route is best?  (the cases that can see stale parameters)
+            key = (r['seq'], r['conn'], tuple(r['boxes']), r['src'], r['dst'])
+            b = route_bends(r['route'])
+            if key in prev_cost and prev_cost[key] != b:
+                stats['optimum_changed_with_penalty'] += 1
+            prev_cost[key] = b
+            continue
+        kind, no_input = j
+        steps = seqs[r['seq']]
+        obj = {'what': kind, 'family': 'several routings in one process with different parameters',
+               'sequence': names[r['seq']] if r['seq'] < len(names) else 'generated #%d' % (r['seq'] - len(names)),
+               'failing_step': r['step'], 'failing_connector': r['conn'], 'step_op': st['op'], 'step_mode': st.get('mode'),
+               'penalties_of_the_process_so_far': [s['pen'] for s in steps[:r['step'] + 1]],
+               'rectangles_x0y0x1y1': r['boxes'], 'src': r['src'], 'dst': r['dst'], 'segmentPenalty_in_force': r['penalty'],
+               'route': r.get('route_text'), 'route_cost': r.get('impl_cost'), 'oracle_cost': r.get('oracle_cost'), 'oracle_path': r.get('oracle_path'),
+               'error': r.get('error')}
+        if no_input:
+            machinery.append(obj)
+            continue
+        viol += 1
+        src_kind = 'corpus' if r['seq'] < len(names) else 'generated'
+        stats['violations_' + src_kind] = stats.get('violations_' + src_kind, 0) + 1
+        if r['seq'] in reported or sum(1 for q in reported if (q < len(names)) == (r['seq'] < len(names))) >= 2:
+            continue        # at most two corpus and two generated sequences are written out
+        reported.add(r['seq'])
+        mini, idx, note = minimise_sequence(exe, spec_exe, steps, r['step'], r['conn'])
+        obj.update({'minimised_sequence_note': note, 'minimised_failing_step': idx,
+                    'replay': "printf '%s' | build/bin/c05_bends-exc-* seq    (one process; S pen keep ns nc / boxes / conns = new Router, T pen mode = "
+                              "setRoutingParameter(segmentPenalty) on the current Router + processTransaction(); after every step the raw routes and E; "
+                              "the route of step %d, connector %d is the failing one)" % (seq_text(mini).replace('\n', '\\n'), idx, r['conn']),
+                    'full_sequence_stdin': seq_text(steps[:r['step'] + 1])})
+        res.violation(obj)
+    return viol
+
+
 # ------------------------------------------------------------------------------------------ bends sweep
 def parse_sweep(out, ncol):
     rows = {}
@@ -587,6 +833,11 @@ def run(tier):
     route_stats = {'routes': 0, 'bends_hist': {}, 'by_penalty': {}, 'scenes': 0, 'with_detour': 0}
     route_viol = 0
     machinery = []
+    # several routings in one process with different parameters (corpus regressions first; own random stream)
+    qstats = {'agree': 0, 'with_detour': 0, 'optimum_changed_with_penalty': 0, 'by_op': {}, 'penalties': {}}
+    seq_viol = run_seq_family(res, exe, spec_exe, C.SplitMix64(res.seed ^ 0xC0565E9), tier, qstats, machinery)
+    route_viol += seq_viol
+    evals += qstats.get('routes', 0)
     for pen in PENALTIES:
         scenes = []
         for i in range(nscenes):
@@ -633,8 +884,12 @@ def run(tier):
                                             'non-empty ConnDirFlags combinations at source and target, segmentPenalty 0.5 / 10 / 50 / 400; raw route() checked by check_path_dirs '
                                             '(flags honoured, obstacle-free) and compared with oracle_dirs (grid_oracle_optimal); known = cases explained by the classifiers '
                                             'sight_line_model / has_reversal', violations=dirs_viol),
+        'parameter_sequence_family': dict(qstats, what='several routings in ONE process with different segmentPenalty values (new Router per scene and the same Router '
+                                                  're-parameterised: setRoutingParameter + processTransaction / makePathInvalid / moveShape), penalties alternating '
+                                                  'large / small; every step judged by the verified route checker + grid oracle with the penalty in force; '
+                                                  'optimum_changed_with_penalty = same connector and scene, different bend count after a re-parameterisation', violations=seq_viol),
         'evaluations': evals,
-        'distinct_nontrivial': sum(1 for k in cpp if not (k[3] == 0 and k[4] == 0)) + route_stats['with_detour'] + dstats['with_detour'],
+        'distinct_nontrivial': sum(1 for k in cpp if not (k[3] == 0 and k[4] == 0)) + route_stats['with_detour'] + dstats['with_detour'] + qstats['with_detour'],
         'rule': 'bends sweep: exhaustive over all relative positions in {-%d..%d}^2 x 16 direction pairs x 3 base points/scales '
                 '(non-trivial = curr != dest); routes: non-trivial = routes with at least 2 bends (a detour round a rectangle)' % (R, R),
         'exhaustive': True, 'samples': samples, 'traces_validated_against_impl': evals,
